@@ -2659,9 +2659,28 @@ class PyCdlib:
         if found_file_entry.inode is None:
             raise pycdlibexception.PyCdlibInvalidInput('Cannot write out an entry without data')
 
+        if found_file_entry.inode.boot_info_table is not None and self._needs_reshuffle:
+            # The boot info table holds extents, so they have to be current.
+            self._reshuffle_extents()
+
         if found_file_entry.get_data_length() > 0:
             with inode.InodeOpenData(found_file_entry.inode, self.logical_block_size) as (data_fp, data_len):
-                utils.copy_data(data_len, blocksize, data_fp, outfp)
+                # A boot file with a boot info table is recorded with the
+                # table over bytes 8-64, under every one of its names.
+                if found_file_entry.inode.boot_info_table is not None:
+                    header_len = min(data_len, 8)
+                    outfp.write(data_fp.read(header_len))
+                    data_len -= header_len
+                    if data_len > 0:
+                        bi_rec = found_file_entry.inode.boot_info_table.record()
+                        table_len = min(data_len, len(bi_rec))
+                        outfp.write(bi_rec[:table_len])
+                        data_len -= table_len
+                        if data_len > 0:
+                            data_fp.seek(len(bi_rec), os.SEEK_CUR)
+                            utils.copy_data(data_len, blocksize, data_fp, outfp)
+                else:
+                    utils.copy_data(data_len, blocksize, data_fp, outfp)
 
     def _get_file_from_iso_fp(self, outfp, blocksize, iso_path, rr_path,
                               joliet_path):
